@@ -48,7 +48,7 @@ def rand_case(rng):
             a = a[::-1]
         return {'f': 'MATCH', 'args': [enc(rng.choice([rng.randint(-6, 13), rng.randint(-6, 13) + 0.5])), enc(a), enc(t)]}
     n = rng.randint(1, 8)
-    words = ['apple', 'Apricot', 'banana', 'BAN', 'cherry', 'a', 'ab', 'abc', 'x y']
+    words = ['apple', 'Apricot', 'banana', 'BAN', 'cherry', 'a', 'ab', 'abc', 'x y', 'apple\n', 'a\nb', 'ab\n', '\nabc']
     a = [rng.choice(words) for _ in range(n)]
     pat = rng.choice(words + ['a*', '*an*', '?', '??', 'A?C', '*', 'b*a', 'zzz', 'ap?le', '*Y'])
     return {'f': 'MATCH', 'args': [enc(pat), enc(a), enc(0)]}
@@ -92,6 +92,8 @@ def main(tier, replay=None):
             return run.finish()
         if c['in'].get('after_mutation'):
             allobs = fncases.observe_after_mutation(lib, [c['in']])
+        elif c['in'].get('after_probes'):
+            allobs = fncases.observe_after_probes(lib, [c['in']], c['in']['after_probes'])
         else:
             allobs = fncases.observe(lib, [c['in']], ranges=True)
         obs = [o for o in allobs if o['formula'] == c['in']['formula']][:1] or allobs[:1]
@@ -132,6 +134,11 @@ def main(tier, replay=None):
     mo = fncases.observe_after_mutation(lib, [c for c in cases if c['f'] in ('INDEX', 'MATCH')][:1500 if quick else 40000])
     run.extra['evaluations_after_in_place_edit'] = len(mo)
     obs += mo
+    # other lookups have looked at the same host table before (same parser, same list objects): it is still the table it was
+    PROBES = ['MATCH(1,%s,0)', 'MATCH("zz",%s,0)', 'MATCH(101,%s,1)', 'INDEX(%s,1)', 'INDEX(%s,1,1)', 'INDEX(%s,0,1)', 'CHOOSE(1,%s)', 'SUM(%s)']
+    po = fncases.observe_after_probes(lib, [c for c in cases if c['f'] in ('INDEX', 'MATCH')][-(1500 if quick else 40000):], PROBES)
+    run.extra['evaluations_after_other_lookups_on_the_same_table'] = len(po)
+    obs += po
     for o in extra:
         o['id'] = len(obs) + 1
         obs.append(o)
